@@ -892,13 +892,25 @@ def mutate(rng, d):
     if kind in ('unbound_var', 'unknown_builtin', 'diff_non_class', 'unbound_var_ctx'):
         if not rules:
             return None
-        pos = rng.choice(rules)
-        r = dict(get_rule(pos))
         bad = {'unbound_var': ('var', 'nope'), 'unbound_var_ctx': ('var', 'nope'), 'unknown_builtin': ('builtin', 'nope'),
                'diff_non_class': ('diff', ('char', 97), rng.choice([('str', [97, 98]), ('star', ('char', 97)),
-                                                                   ('cat', ('char', 97), ('char', 98)), ('eoi',)]))}[kind]
+                                                                   ('cat', ('char', 97), ('char', 98)), ('eoi',),
+                                                                   ('str', [98]), ('str', [233])]))}[kind]
+        # the operand that is not a class reached through one or two levels of variables (agent10-C17: a variable bound
+        # to a one-character string was accepted under `#`)
+        if kind == 'diff_non_class' and rng.random() < 0.4:
+            d.insert(0, ('let', 'ncv', bad[2]))
+            rules = [(ti + 1, ri) for ti, ri in rules]
+            if rng.random() < 0.4:
+                d.insert(1, ('let', 'ncw', ('var', 'ncv')))
+                rules = [(ti + 1, ri) for ti, ri in rules]
+                bad = ('diff', bad[1], ('var', 'ncw'))
+            else:
+                bad = ('diff', bad[1], ('var', 'ncv'))
         # the offending leaf also as an operand of `#` in every position: right operand of a chain whose left part is
         # already the empty class, left operand, operand of a nested `#`, under `|` inside an operand
+        pos = rng.choice(rules)
+        r = dict(get_rule(pos))
         if rng.random() < 0.4:
             leaf = bad[2] if kind == 'diff_non_class' else bad
             empty = ('diff', ('set', [(97, 99)]), ('set', [(97, 122)]))
